@@ -114,6 +114,9 @@ class JSONValidator:
             return True, None
         except json.JSONDecodeError as e:
             return False, f"Invalid JSON: {e}"
+        except RecursionError:
+            # Nesting deep enough to overflow the parser is over any depth limit
+            return False, f"JSON nesting exceeds parser limits (max depth {self.max_depth})"
 
     def _measure_depth(self, obj, current: int = 0) -> int:
         """Measure nesting depth of JSON object."""
